@@ -8,7 +8,7 @@ PLAN = {
     'property': 'C14',
     'units': [{'name': 'apbp', 'tu': 'src/apbp.cpp', 'roots': ROOTS,
                'must_fire': ['std::unique_ptr<T> -> T*', 'std::function invocation -> CB_<Class>_<field> stub']}],
-    'harness_files': ['harness/c14.c'], 'contract_files': ['contracts/apbp.h'], 'spec_files': ['spec/apbp_spec.h'],
+    'harness_files': ['harness/c14.c'], 'contract_files': ['contracts/apbp_contracts.h'], 'spec_files': ['spec/apbp_spec.h'],
     'native': {'bridges': ['replay/bridge_apbp.cpp']},
     'obligations': [
         fn('Apbp_SendData', 'h_SendData'),
